@@ -9,6 +9,7 @@ AREA = "runner"
 EXTRACT_V = "Runner/Extract.v"
 GO_CMD = "hx-runner"
 RUN_TIMEOUT = 1500
+PARALLEL = 10
 RULE = ("histories delivered to one real validator.Validator (7 duty runners, controllers built as the operator builds "
         "them) derived from honest 4-node runs of the real code: start-duty events and pre-/consensus/post-consensus "
         "messages in honest, perturbed, replayed and interleaved order, stale (slot-1) and future (slot+1) duties' "
